@@ -177,7 +177,7 @@ def gen_case(rng, k):
     if pos != 'extra' and pwc in ('bang', 'mixed', 'query', 'hash'):
         pwc = rng.choice(['plain', 'colon', 'slash', 'pct'])     # '!' ';' ',' would be parsed as option/topic/list syntax there
     uri = f'{scheme}://{USERS[uc]}:{PW_CLASSES[pwc](token)}@{host}:8554/live/stream1'
-    container = rng.choice(['string', 'comma_first', 'comma_middle', 'comma_last', 'comma_tight', 'list', 'tuple', 'dict', 'nested2', 'nested3', 'record'])
+    container = rng.choice(['string', 'comma_first', 'comma_middle', 'comma_last', 'comma_tight', 'list', 'tuple', 'dict', 'nested2', 'nested3', 'record', 'dict_key', 'nested_key'])
     cfg = json.loads(json.dumps(BASE[cname]))
     other = 'rtsp://cam-plain.example/stream'
     if pos == 'extra':
@@ -194,7 +194,7 @@ def gen_case(rng, k):
         elif container in ('comma_first', 'comma_middle', 'comma_last', 'comma_tight'):
             sep = ',' if container == 'comma_tight' else ', '
             cfg[pos] = sep.join([item, native_other] if container != 'comma_last' else [native_other, item])
-        elif container in ('list', 'tuple', 'dict', 'nested2', 'nested3'):
+        elif container in ('list', 'tuple', 'dict', 'nested2', 'nested3', 'dict_key', 'nested_key'):
             cfg[pos] = [item] if rng.random() < 0.6 else [item, native_other]
             container = 'list'
         else:
@@ -229,6 +229,10 @@ def place(uri, other, container):
         return [{'targets': [{'uri': uri, 'w': 1}, other]}]
     if container == 'record':
         return [{'source': uri, 'topic': 'main', 'options': {}}]
+    if container == 'dict_key':
+        return {uri: 'lobby', 'n': 1}                    # mapping-valued option keyed by URI
+    if container == 'nested_key':
+        return {'routes': [{uri: {'zone': 1}}]}
     raise AssertionError(container)
 
 
@@ -343,7 +347,7 @@ def classify(case, sink):
         return f'comma-list-without-space:{sink}'
     if sink == 'lineage':
         return 'lineage-facets-raw-config'
-    if case['container'] in ('dict', 'nested2', 'nested3', 'record'):
+    if case['container'] in ('dict', 'nested2', 'nested3', 'record', 'dict_key', 'nested_key'):
         return f'nested-dict-unmasked:{sink}'
     return f'leak:{sink}:{case["container"]}'
 
